@@ -472,6 +472,24 @@ def unpark (e : EP) : EP :=
       ({ e with park := none }).enqFrame (.reset b.fid)
     else if e.bindq.length < e.opts.bindCap then { e with bindq := e.bindq ++ [b], park := none } else e
 
+/-- The drain loop of the wind-down (after a local drop) continues once the sink accepts messages
+    again; when the queue is empty the rest of the wind-down follows. -/
+def drainStep (e : EP) (res : ExitRes) : EP × List Ev :=
+  if (sendSome e).1.outq.isEmpty then
+    windDownTail { (sendSome e).1 with draining := none } (sendSome e).2 e.srcEnded res
+  else sendSome e
+
+/-- Close handshake: the task keeps reading until the source ends. -/
+def closingStep (e : EP) (res : ExitRes) : EP × List Ev :=
+  if (windDownInbox e e.inbox).2.2 then
+    ((windDownFinish { (windDownInbox e e.inbox).1 with inbox := [] } res).1,
+     (windDownInbox e e.inbox).2.1 ++ (windDownFinish { (windDownInbox e e.inbox).1 with inbox := [] } res).2)
+  else ({ (windDownInbox e e.inbox).1 with inbox := [] }, (windDownInbox e e.inbox).2.1)
+
+/-- The receive loop takes one item from the transport. -/
+def recvOne (e : EP) (w : WsIn) (rest : List WsIn) : EP × List Ev × Option ExitRes :=
+  processIn { (if w = .eof ∨ w = .err then { e with srcEnded := true } else e) with inbox := rest } w false
+
 /-- Receive loop, then notification loop, then send loop (`select_biased`, task.rs:139-156), until
     nothing is left to do. `fuel` bounds the recursion; every iteration consumes an inbox item or a
     notification, and an inbox item adds at most one notification, so
@@ -480,43 +498,28 @@ def settleLoop : Nat → EP → List Ev → EP × List Ev
   | 0, e, acc => (e, acc)
   | fuel + 1, e, acc =>
     if e.dead then (e, acc) else
-    if let some res := e.draining then
-      -- the drain loop of the wind-down continues once the sink accepts messages again
-      let r := sendSome e
-      if r.1.outq.isEmpty then
-        let t := windDownTail { r.1 with draining := none } r.2 e.srcEnded res
-        (t.1, acc ++ t.2)
-      else (r.1, acc ++ r.2)
-    else
-
-    if let some res := e.closing then
-      -- close handshake: keep reading until the source ends
-      let (e', evs, ended) := windDownInbox e e.inbox
-      let e' := { e' with inbox := [] }
-      if ended then
-        let (e'', evs') := windDownFinish e' res
-        (e'', acc ++ evs ++ evs')
-      else (e', acc ++ evs)
-    else
-    let e := unpark e
-    match e.park, e.inbox with
+    match e.draining with
+    | some res => ((drainStep e res).1, acc ++ (drainStep e res).2)
+    | none =>
+    match e.closing with
+    | some res => ((closingStep e res).1, acc ++ (closingStep e res).2)
+    | none =>
+    match (unpark e).park, (unpark e).inbox with
     | none, w :: rest =>
-      let e := if w = .eof ∨ w = .err then { e with srcEnded := true } else e
-      let (e, evs, stop) := processIn { e with inbox := rest } w false
-      match stop with
+      match (recvOne (unpark e) w rest).2.2 with
       | some r =>
-        let (e, evs') := windDown e false r
-        (e, acc ++ evs ++ evs')
-      | none => settleLoop fuel e (acc ++ evs)
+        ((windDown (recvOne (unpark e) w rest).1 false r).1,
+         acc ++ (recvOne (unpark e) w rest).2.1 ++ (windDown (recvOne (unpark e) w rest).1 false r).2)
+      | none => settleLoop fuel (recvOne (unpark e) w rest).1 (acc ++ (recvOne (unpark e) w rest).2.1)
     | _, _ =>
-      match e.droppedq with
+      match (unpark e).droppedq with
       | 0 :: rest =>
-        let (e, evs) := windDown { e with droppedq := rest } true .ok
-        (e, acc ++ evs)
+        ((windDown { unpark e with droppedq := rest } true .ok).1,
+         acc ++ (windDown { unpark e with droppedq := rest } true .ok).2)
       | fid :: rest =>
-        let (e, evs) := closeFlow { e with droppedq := rest } fid false
-        settleLoop fuel e (acc ++ evs)
-      | [] => (e, acc)
+        settleLoop fuel (closeFlow { unpark e with droppedq := rest } fid false).1
+          (acc ++ (closeFlow { unpark e with droppedq := rest } fid false).2)
+      | [] => (unpark e, acc)
 
 /-- Insert into a list sorted ascending (requests are numbered in the order their futures were
     spawned, which is the order the executor polls them in). -/
